@@ -73,6 +73,8 @@ class AsyncFIXDummyServer(AsyncFIXConnection):
 
             writer.close()
             await writer.wait_closed()
+            # keep serving the established connection (reader/writer/state untouched)
+            return
 
         self._socket_reader = reader
         self._socket_writer = writer
